@@ -65,6 +65,10 @@ def wrap_fill_script(L, rng, dgram, name):
 def run(ctx):
     T = ctx.thorough()
     if ctx.replay:
+        _rp = vlib.json.load(open(ctx.replay)).get("replay")
+        if isinstance(_rp, dict) and "mode" in _rp and "script" in _rp:   # a replay file of the pool extension (drv_pool)
+            import poollib
+            return poollib.replay(ctx)
         d = vlib.json.load(open(ctx.replay))["replay"]
         if d.get("driver") == "drv_pipeline":
             import pipeline_part
@@ -161,3 +165,12 @@ def run(ctx):
         pc.mutate_check(ctx, recs[:narrow], TRACE_CFG, rng)
     for r in [recs[i] for i, _, _ in rej[:2]] + recs[narrow_n:narrow_n + 1] + recs[:1]:
         ctx.sample({"name": r["name"], "steered": r["steered"], "trace": r["trace"][:60]})
+
+    # ---- the same property on the connection pools (reuse.go, pipeline.go + conn_lazy_dial.go):
+    # spec/ReuseConn.tla, spec/LazyPipeline.tla, harness/drv_pool (checks/pool_extra.py)
+    import pool_extra
+    _ev, _dn = ctx.cov.get("evaluations", 0), ctx.cov.get("distinct_nontrivial", 0)
+    _recs = pool_extra.run_c09_reuse(ctx)
+    _ran = [r for r in _recs if not r.get("skipped")]
+    ctx.cov["evaluations"] = _ev + len(_ran)
+    ctx.cov["distinct_nontrivial"] = _dn + len({r["name"].split("#")[0] for r in _ran if r["steered"]})
